@@ -664,7 +664,8 @@ class _Inliner(ast.NodeTransformer):
 
     def _hoist(self, st):
         """statement with one call of a form-R helper evaluated first -> structured helper statements + the statement reading the result variable"""
-        roots = [st.test] if isinstance(st, ast.If) else ([st] if isinstance(st, (ast.Expr, ast.Assign, ast.AugAssign, ast.AnnAssign, ast.Return)) else [])
+        roots = [st.test] if isinstance(st, ast.If) else ([st.iter] if isinstance(st, ast.For) else
+                                                            ([st] if isinstance(st, (ast.Expr, ast.Assign, ast.AugAssign, ast.AnnAssign, ast.Return)) else []))
         if not roots:
             return None
         root = roots[0]
@@ -695,6 +696,8 @@ class _Inliner(ast.NodeTransformer):
                     return self_.generic_visit(n)
             if isinstance(st, ast.If):
                 st.test = RA().visit(st.test)
+            elif isinstance(st, ast.For):
+                st.iter = RA().visit(st.iter)
             else:
                 st = RA().visit(st)
             return stmts_a + [st]
@@ -717,6 +720,8 @@ class _Inliner(ast.NodeTransformer):
                 return self_.generic_visit(n)
         if isinstance(st, ast.If):
             st.test = R().visit(st.test)
+        elif isinstance(st, ast.For):
+            st.iter = R().visit(st.iter)
         else:
             st = R().visit(st)
         return stmts + [st]
@@ -805,7 +810,17 @@ class _Inliner(ast.NodeTransformer):
         return super().generic_visit(node)
 
 
-def inline_new_helpers(tree: ast.Module, rel: str) -> Tuple[ast.Module, List[str]]:
+def new_module_functions(tree: ast.Module, rel: str) -> Dict[str, ast.AST]:
+    """module-level functions of `rel` that are not in the inventory of the pinned tree (candidates for substitution in modules that import them)"""
+    base = baseline().get(rel)
+    if base is None:
+        return {}
+    return {st.name: st for st in tree.body if isinstance(st, ast.FunctionDef) and st.name not in base and not st.name.startswith("__")}
+
+
+def inline_new_helpers(tree: ast.Module, rel: str, foreign: Optional[Dict[str, ast.AST]] = None) -> Tuple[ast.Module, List[str]]:
+    """`foreign`: local name -> definition of a function imported from another module of the package where it is new (a helper moved to a
+    shared module); it is substituted at its call sites like a helper of this module"""
     base = baseline().get(rel)
     if base is None or os.environ.get("SA_NO_INLINE"):
         return tree, []
@@ -814,6 +829,21 @@ def inline_new_helpers(tree: ast.Module, rel: str) -> Tuple[ast.Module, List[str
         funcs = _functions(tree)
         templates: Dict[str, _Template] = {}
         names_seen: Dict[str, int] = {}
+        for local, fdef in (foreign or {}).items():
+            if any(getattr(fn_, "name", None) == local for _, fn_, _, _ in funcs):
+                continue  # shadowed by a local definition
+            params_f = _simple_params(fdef)
+            cl_f = _classify(fdef) if params_f is not None and not fdef.decorator_list else None
+            if cl_f is None or any(isinstance(c, ast.Call) and isinstance(c.func, ast.Name) and c.func.id == fdef.name for c in ast.walk(fdef)):
+                continue
+            form_f, stmts_f, result_f = cl_f
+            defaults_f: Dict[str, ast.expr] = {}
+            for p_, d_ in zip(reversed(fdef.args.args), reversed(fdef.args.defaults)):
+                defaults_f[p_.arg] = d_
+            for p_, d_ in zip(fdef.args.kwonlyargs, fdef.args.kw_defaults):
+                if d_ is not None:
+                    defaults_f[p_.arg] = d_
+            templates[local] = _Template(local, params_f, defaults_f, form_f, stmts_f, result_f, None, False, False)
         for q, fn, cls, outer in funcs:
             names_seen[fn.name] = names_seen.get(fn.name, 0) + 1
         for q, fn, cls, outer in funcs:
